@@ -163,7 +163,14 @@ impl Typer
 	{
 		if let Some(symbol) = self.symbols.get_mut(&identifier.resolution_id)
 		{
-			symbol.value_type = Err(poison);
+			// A symbol whose type was declared keeps that type, because
+			// a poisoned value does not make its type unknown, and poison
+			// from a preliminary pass would hide errors in the final pass.
+			if !(symbol.identifier.is_authoritative
+				&& symbol.value_type.is_ok())
+			{
+				symbol.value_type = Err(poison);
+			}
 		}
 		else
 		{
